@@ -220,13 +220,14 @@ def gen_contract(rng, g, name, node, f, price_key, window=True, take=True, simpl
         a['max_cap'] = cap_key
         a['_cap_level'] = [r2(max(lo, 0.) * f), r2(hi * f)]
         return a
-    if dict_caps and rng.random() < 0.2 and hi > 0:
+    if dict_caps and rng.random() < 0.35 and hi > 0:
         # time-varying capacity as interval dictionary covering the horizon generously
         pts = grid_points(g)
         mid = naive_str(pts[len(pts) // 2])
         far0 = str(pd.Timestamp(g['start']) - pd.Timedelta(days=40)); far1 = str(pd.Timestamp(g['end']) + pd.Timedelta(days=40))
         if local_ok(mid, g.get('tz')):
-            a['max_cap'] = {'start': [far0, mid], 'end': [mid, far1], 'values': [r2(hi * f), r2(max(lo * f, hi * f * 0.5))]}
+            second = max(lo * f, hi * f * 0.5) if lo > 0 else pick(rng, [hi * f * 0.5, 0., 0.])      # (an availability profile: no capacity at all in part of the horizon)
+            a['max_cap'] = {'start': [far0, mid], 'end': [mid, far1], 'values': [r2(hi * f), r2(second)]}
     return a
 
 
